@@ -90,8 +90,8 @@ FromSlice(ty, reg, b) ==
 FromTaggedSlice(ty, b) ==
   LET r == ReadToValue(b) IN
   IF ~r.ok THEN GapOr(r)
-  ELSE IF r.v.t # "tag" THEN TypeErr
-  ELSE IF r.v.tag # MagOfNat(TagOf(ty)) THEN TypeErr
+  ELSE IF r.v.t # "tag" THEN WrongType(r.v, "tag")
+  ELSE IF r.v.tag # MagOfNat(TagOf(ty)) THEN Unexp("tag", "other tag")
   ELSE FromCbor(ty, "", r.v.x)
 
 ToVec(ty, x) == LET r == ToCbor(ty, x) IN IF r.ok THEN Good(Enc(r.x)) ELSE r
@@ -102,9 +102,10 @@ NoMem == [k |-> "none", ty |-> "", val |-> <<>>]
 BuilderMem(ty, x) == [k |-> "builder", ty |-> ty, val |-> x]
 ValueMem(ty, x) == [k |-> "value", ty |-> ty, val |-> x]
 
-OutNone == [kind |-> "ok", err |-> "", bytes |-> <<>>, cb |-> <<>>, ret |-> <<>>]
+OutNone == [kind |-> "ok", err |-> "", bytes |-> <<>>, cb |-> <<>>, ret |-> <<>>, diag |-> <<>>]
 OutOk == OutNone
 OutErr(e) == [OutNone EXCEPT !.kind = "err", !.err = e]
+OutErrOf(r) == [OutNone EXCEPT !.kind = "err", !.err = r.err, !.diag = DiagOf(r)]      \* r: a failed codec result
 OutPanic == [OutNone EXCEPT !.kind = "panic"]
 OutBytes(b) == [OutNone EXCEPT !.bytes = <<b>>]
 
@@ -141,11 +142,11 @@ Step(s, e) ==
                     [] e.api = "tagged" -> FromTaggedSlice(e.ty, s.wire[1])
                     [] e.api = "bstr" -> Prot_FromBstr(Bs(s.wire[1])) IN
          IF r.ok THEN [s EXCEPT !.mem = ValueMem(e.ty, r.x), !.out = OutOk]
-         ELSE [s EXCEPT !.mem = NoMem, !.out = OutErr(r.err)]
+         ELSE [s EXCEPT !.mem = NoMem, !.out = OutErrOf(r)]
     [] e.ev = "decode_value" ->
          LET r == FromCbor(e.ty, e.reg, e.val) IN
          IF r.ok THEN [s EXCEPT !.mem = ValueMem(e.ty, r.x), !.out = OutOk]
-         ELSE [s EXCEPT !.mem = NoMem, !.out = OutErr(r.err)]
+         ELSE [s EXCEPT !.mem = NoMem, !.out = OutErrOf(r)]
     [] e.ev = "tbs" ->
          LET x == s.mem.val ty == s.mem.ty IN
          Queried(s, CASE ty = "CoseSign1" /\ e.m = "tbs_data" -> Sign1_Tbs(x, e.aad)
@@ -184,7 +185,7 @@ Step(s, e) ==
     [] e.ev = "clone_eq" -> [s EXCEPT !.out = OutOk]
 
 (* what the harness observes after a step: the outcome plus the projected value if one is held *)
-Obs(s) == [kind |-> s.out.kind, err |-> s.out.err, bytes |-> s.out.bytes, cb |-> s.out.cb, ret |-> s.out.ret,
+Obs(s) == [kind |-> s.out.kind, err |-> s.out.err, diag |-> s.out.diag, bytes |-> s.out.bytes, cb |-> s.out.cb, ret |-> s.out.ret,
            val |-> IF s.mem.k = "value" THEN <<s.mem.val>> ELSE <<>>]
 
 (* the documented panics (DESIGN.md Appendix B): the only panic outcomes the machine has *)
